@@ -31,6 +31,48 @@ UNDECLARED = ['bogus', 'not_an_attribute', 'fontfamily', 'Default_x', 'numbr', '
               'number_of', 'zz_top']
 
 
+_FOREIGN = []
+_FOREIGN_VALUE = {}   # a value that is valid where the name IS declared (so only the name can be the reason to refuse)
+
+
+def foreign_names():
+    """python names of attributes that real types declare: first those that complexContent extensions add to their
+    base (a base table polluted by its extension accepts exactly these), then the rest of the schema's names"""
+    if not _FOREIGN:
+        s = schema()
+        first, rest = [], []
+        for t, node in s.complex.items():
+            cc = node.find('{http://www.w3.org/2001/XMLSchema}complexContent')
+            if cc is not None:
+                ext = cc.find('{http://www.w3.org/2001/XMLSchema}extension')
+                for a in s._attrs_from(ext):
+                    n = py_name(a['qname'].split(':')[-1])
+                    if n not in first:
+                        first.append(n)
+                    _FOREIGN_VALUE.setdefault(n, valid_value(a)[1])
+        for t in sorted(s.complex):
+            for a in s.attributes_of(t):
+                n = py_name(a['qname'].split(':')[-1])
+                if n not in first and n not in rest:
+                    rest.append(n)
+                if not a['qname'].startswith('xlink:') and not a['type'].startswith('#'):
+                    _FOREIGN_VALUE.setdefault(n, valid_value(a)[1])
+        _FOREIGN.extend([first, rest])
+    return _FOREIGN
+
+
+def warm_up(seed):
+    """build every class's lazily computed attribute table, in a seed-dependent order (public API only)"""
+    import random
+    s = schema()
+    els = sorted(s.element_type)
+    random.Random(seed).shuffle(els)
+    for el in els:
+        c = cls_for(el)
+        if hasattr(c.TYPE, 'get_xsd_attributes'):
+            call(c.TYPE.get_xsd_attributes)
+
+
 def attr_decl(el, q):
     s = schema()
     return [a for a in s.attributes_of(s.element_type[el]) if a['qname'] == q][0]
@@ -171,15 +213,17 @@ def undeclared(el, name, route):
     t = s.element_type[el]
     inp = {'layer': 'undeclared', 'element': el, 'name': name, 'route': route}
     cls = cls_for(el)
+    foreign_names()
+    val = _FOREIGN_VALUE.get(name, 'x')
     if route == 'ctor':
-        r = call(cls, *ctor_args(el), **{name: 'x'})
+        r = call(cls, *ctor_args(el), **{name: val})
         if r.ok:
             return F('undeclared-attribute-accepted', t, inp, dict(r.value.attributes), 'exception')
         return None
     r0 = call(cls, *ctor_args(el))
     if not r0.ok:
         return None
-    r = call(setattr, r0.value, name, 'x')
+    r = call(setattr, r0.value, name, val)
     if r.ok:
         return F('undeclared-attribute-accepted', t, inp, dict(r0.value.attributes), 'exception')
     if dict(r0.value.attributes):
@@ -245,6 +289,8 @@ def history(el, ops):
 
 def replay_case(rec):
     inp = rec['input']
+    if inp.get('after_warm_up') is not None:
+        warm_up(inp['after_warm_up'])
     if inp['layer'] == 'pair':
         return pair(inp['element'], inp['attribute'], inp['route'], inp['validity'])[0]
     if inp['layer'] == 'undeclared':
@@ -262,7 +308,12 @@ def shards(ctx):
                 for validity in ('valid', 'invalid'):
                     obs.append(('pair', el, a['qname'], route, validity))
         names = {py_name(a['qname'].split(':')[-1]) for a in s.attributes_of(t)}
-        for n in UNDECLARED:
+        first, rest = foreign_names()
+        k = 6 if ctx.quick else 40
+        pool = [n for n in rest if n not in names and n not in ('name',)]
+        off = (ctx.seed * 7 + len(el)) % max(len(pool), 1)
+        extra = [n for n in first if n not in names] + (pool[off:] + pool[:off])[:k]
+        for n in UNDECLARED + extra:
             if n not in names:
                 obs.append(('undeclared', el, n, 'ctor'))
                 obs.append(('undeclared', el, n, 'dot'))
@@ -272,7 +323,7 @@ def shards(ctx):
         els = sorted(s.element_type)
         sel = set(els[(ctx.seed % 3)::3])
         obs = [o for o in obs if (o[0] == 'pair' and o[3] != 'parser') or o[1] in sel]
-    jobs = [{'mode': 'enum', 'obs': part} for part in gen.chunk(obs, 16)]
+    jobs = [{'mode': 'enum', 'obs': part, 'warm': i % 2 == 1} for i, part in enumerate(gen.chunk(obs, 16))]
     for i in range(8):
         jobs.append({'mode': 'history', 'index': i})
     return jobs
@@ -281,6 +332,11 @@ def shards(ctx):
 def run_shard(ctx, shard, acc):
     s = schema()
     if shard['mode'] == 'enum':
+        if shard.get('warm'):
+            # half of the shards run after every class's attribute table has been built (in a seed-dependent order),
+            # the other half build them on demand: the verdicts must not depend on that history
+            warm_up(ctx.seed)
+            acc.count('shards-after-warm-up')
         for ob in shard['obs']:
             if ob[0] == 'pair':
                 f, status = pair(ob[1], ob[2], ob[3], ob[4])
@@ -295,6 +351,9 @@ def run_shard(ctx, shard, acc):
                 acc.case({'layer': 'undeclared', 'element': ob[1], 'name': ob[2], 'route': ob[3]}, True)
                 acc.count('undeclared')
             if f:
+                # replay in the state in which every table has been built (warm shards are in it from the start,
+                # the others reach it piecemeal)
+                f['input']['after_warm_up'] = ctx.seed
                 acc.fail(f, raise_=False)
         return
     els = sorted(el for el, t in s.element_type.items() if s.attributes_of(t))
